@@ -463,7 +463,7 @@ PLANS = {
                                              ("engine", dict(quick=30000, thorough=1500000), ["--focus", "C06"], {"profile": "checked"})],
                 rule=ENGINE_RULE,
                 technique="Lean 4 proof of a safety invariant of the executor models (no error site reachable, positions in range) + executor tie + range/boundary checks on the implementation"),
-    "C14": dict(proofs=["Proofs.C14"], fset="utf16",
+    "C14": dict(proofs=["Proofs.C14", "Proofs.C14Sem"], fset="utf16",
                 runs=[("c14", dict(quick=20000, thorough=600000))],
                 rule="(pattern AST, flags, haystack, start): find_from_utf16 on the UTF-16 encoding with offsets translated back vs find_from on the string; find_from_ucs2 on BMP text; arbitrary u16 slices with lone surrogates from every start; non-trivial = match",
                 technique="Lean 4 proof about the UTF-16/UCS-2 decoder models (round trip, totality and range on arbitrary units, offset translation) + correspondence with the utf16 build"),
